@@ -18,13 +18,15 @@ import (
 )
 
 type Box struct {
-	Root   string // scratch root of this case
-	Work   string // working tree (contains .goit)
-	Home   string // HOME of the goit process (holds .goitconfig)
-	Bin    string
-	TZMin  int      // UTC offset of the process in minutes
-	Extra  []string // extra environment
-	NRuns  int
+	Root  string // scratch root of this case
+	Work  string // working tree (contains .goit)
+	Home  string // HOME of the goit process (holds .goitconfig)
+	Bin   string
+	TZMin int      // UTC offset of the process in minutes
+	Extra []string // extra environment
+	NRuns int
+
+	limitKiB int // address-space limit of the next runs (RunLimited)
 }
 
 // ScratchBase is where per-case directories are created.
@@ -109,11 +111,24 @@ func (b *Box) RunIn(dir string, args ...string) Result {
 	return r
 }
 
+// RunLimited is Run with a limit on the address space of the goit process (in KiB, as for
+// ulimit -v): a command that allocates without bound dies with "out of memory", which is
+// reported like a crash.
+func (b *Box) RunLimited(kib int, args ...string) Result {
+	b.limitKiB = kib
+	defer func() { b.limitKiB = 0 }()
+	return b.RunIn(b.Work, args...)
+}
+
 func (b *Box) run(dir string, limit time.Duration, args []string) Result {
 	b.NRuns++
 	ctx, cancel := context.WithTimeout(context.Background(), limit)
 	defer cancel()
 	cmd := exec.CommandContext(ctx, b.Bin, args...)
+	if b.limitKiB > 0 {
+		sh := fmt.Sprintf("ulimit -v %d; exec \"$0\" \"$@\"", b.limitKiB)
+		cmd = exec.CommandContext(ctx, "/bin/sh", append([]string{"-c", sh, b.Bin}, args...)...)
+	}
 	cmd.Dir = dir
 	cmd.Env = b.env()
 	var so, se bytes.Buffer
